@@ -45,7 +45,7 @@ P_STMTS_MORE = [
     "if c == 1:\n x = x + 1 {p} x\nend",
 ]
 PLAIN = ["c = Bernoulli(1/2)", "x = x + c", "y = y + x", "x = 2*x", "if c == 1:\n x = x + 1\nend", "x, y = y, x"]
-INITS = [{}, {"x": "p"}, {"x": "p", "y": "p*q"}]
+INITS = [{}, {"x": "p"}, {"x": "p", "y": "p*q"}, {"x": "p", "y": "2*x + 1"}]
 
 
 def rule(tier):
@@ -95,6 +95,9 @@ CHAINS = [
     "x = 0\ny = 0\nz = 1\nu = 1\nwhile true:\n    x = x + 1 {p} x\n    z = z + 1 {1/2} z\n    u = u + 1\n    y = y + p*u*x*z + q*z\nend\n",
     "x = 0\ny = 0\nz = 1\nwhile true:\n    x = x + 1 {p} x\n    z = z + 1 {1/2} z\n    y = y + p**2*x*z**2 + p*z\nend\n",
     "x = 0\ny = 0\nz = 1\nwhile true:\n    z = z + 1 {1/2} z\n    y = y + p*z*x\n    x = x + 1 {p} x\nend\n",
+    # the parameter enters through the initial block only, and reaches other variables through initial assignments
+    "x = p\ny = 2*x + 1\nz = 0\nwhile true:\n    z = z + y\n    y = y + 1 {1/2} y - 1\n    x = x + 1\nend\n",
+    "x = p\ny = x\nw = y*y\nz = 0\nwhile true:\n    z = z + w\n    w = w + y\n    y = y + 1\n    x = 2*x\nend\n",
 ]
 
 
